@@ -33,7 +33,7 @@ Lemma special_tag_is_whatwg_except : forall n, emem n (special_extra ++ special_
 Proof. by_eout. Qed.
 (* restricted to HTML element names the only differences are isindex / keygen / search *)
 Lemma special_tag_html_names : forall n, smem n ["isindex"; "keygen"; "search"] = false ->
-  smem n (map snd ts_special_tag) = smem n whatwg_special_html.
+  smem n (map snd (filter (fun e => ns_eqb (fst e) NsHtml) ts_special_tag)) = smem n whatwg_special_html.
 Proof. by_sout. Qed.
 
 Lemma default_scope_is_whatwg_except : forall n, emem n scope_missing = false ->
@@ -93,16 +93,23 @@ Proof. by_eout. Qed.
 Lemma table_body_sections_is_whatwg_except : forall n, emem n (table_body_sections_extra ++ table_body_sections_missing) = false ->
   emem n ts_step_InTableBody__table_outer = emem n whatwg_table_body_sections.
 Proof. by_eout. Qed.
-(* every declare_tag_set! of the source is covered by one of the lemmas above *)
-Lemma tag_sets_census : map fst tag_sets = [
+(* every declare_tag_set! / set predicate of the source is covered by one of the lemmas above: a set the translator
+   finds under a name that is not listed here breaks this lemma.  (A subset statement, so that it survives the order
+   of declarations; ts_html_special_tag is the HTML part of ts_special_tag once the latter is a fn over all
+   namespaces - covered by special_tag_html_names.) *)
+Definition covered_tag_sets : list string := [
   "ts_html_default_scope"; "ts_list_item_scope"; "ts_button_scope"; "ts_table_scope"; "ts_table_body_context";
   "ts_table_row_context"; "ts_td_th"; "ts_cursory_implied_end"; "ts_thorough_implied_end"; "ts_heading_tag";
-  "ts_special_tag"; "ts_appropriate_place_for_insertion__foster_target"; "ts_check_body_end__body_end_ok";
+  "ts_special_tag"; "ts_html_special_tag"; "ts_appropriate_place_for_insertion__foster_target";
+  "ts_check_body_end__body_end_ok";
   "ts_close_p_element__implied"; "ts_process_chars_in_table__table_outer"; "ts_insert_element__form_associatable";
   "ts_insert_element__listed"; "ts_step_InBody__close_list"; "ts_step_InBody__close_defn";
   "ts_step_InBody__extra_special"; "ts_step_InTableBody__table_outer"; "ts_mathml_text_integration_point";
   "ts_svg_html_integration_point"; "ts_default_scope"].
-Proof. vm_compute. reflexivity. Qed.
+Lemma tag_sets_census :
+  forallb (fun n => smem n covered_tag_sets) (map fst tag_sets) = true /\
+  forallb (fun n => smem n (map fst tag_sets)) (filter (fun n => negb (String.eqb n "ts_html_special_tag")) covered_tag_sets) = true.
+Proof. vm_compute. split; reflexivity. Qed.
 
 (* ================================================================== quirks (GenQuirks.v) *)
 Lemma quirky_public_prefixes_is_whatwg_except : forall n, smem n quirks_prefix_missing = false ->
@@ -196,8 +203,10 @@ Proof.
       + apply gen_quirks_tables_agree.
       + intros x Hx. unfold quirks_table_exceptions in Hx.
         destruct (String.eqb "QUIRKY_PUBLIC_PREFIXES" t0); [|discriminate].
-        change quirks_prefix_missing with [silmaril_lower] in Hx. cbn [mem] in Hx. rewrite orb_false_r in Hx.
-        apply String.eqb_eq in Hx. subst x. exact H. }
+        (* quirks_prefix_missing is [] since the Silmaril prefix was added in /repo, [silmaril_lower] before *)
+        unfold quirks_prefix_missing in Hx. cbn [mem] in Hx.
+        first [ discriminate Hx
+              | rewrite orb_false_r in Hx; apply String.eqb_eq in Hx; subst x; exact H ]. }
   now rewrite E.
 Qed.
 
